@@ -27,6 +27,26 @@ def check_design(ctx, prop, devs):
         ctx.extra.setdefault("deviation_witnesses", []).append(d)
 
 
+STATE_FACTS = ["OnlyLiveStates", "EstablishedOnlyByLogonOrResend", "ResendSentOnlyFromContinuous", "LogoffOnlyWhenEstablished",
+               "TestRequestBySilence", "LeavesTestReq", "BadIdsEnd"]
+STATE_WITNESSES = ["NoRevival", "NoResendStateLostToTick", "AllReached", "EstablishedOnlyByLogon", "LeavesTestReqOnlyByHeartbeat"]
+
+
+def check_state_machine(ctx):
+    """SessionStates.tla (the whole session state machine at call grain): TLC checks the design facts and that the named
+    oddities of the code's machine are really in it (witness configs must violate).  The same relation labels every
+    recorded call in T_Session (note_labels)."""
+    r = tlc.check("MC_SessionStates.tla", "MC_SessionStates.cfg", workers=8, timeout=900)
+    if not r["ok"]:
+        raise core.Infra("session state machine violates %s: the model is wrong" % r["violated"])
+    ctx.add_model(r, "MC_SessionStates.tla", "MC_SessionStates.cfg", STATE_FACTS)
+    for w in STATE_WITNESSES:
+        x = tlc.check("MC_SessionStates.tla", "MC_SessionStates_witness_%s.cfg" % w, workers=2, timeout=300)
+        if x["ok"] or x["violated"] != w:
+            raise core.Infra("witness %s should be violated by the state machine, got %s" % (w, x["violated"]))
+        ctx.extra.setdefault("state_machine_witnesses", []).append(w)
+
+
 def export(ctx, limit=None):
     cfg = "MC_Session_export.cfg" if ctx.quick else "MC_Session_export_thorough.cfg"
     r = tlc.check("Session.tla", cfg, timeout=1500, workers=1)      # one worker: the exported histories are reproducible
